@@ -8,6 +8,7 @@ loop of `socket_read_task` by the differential harness harness/c10.py) and quant
 ALL byte strings `raw : List Nat`, all group tables and all BeginStrings.
 -/
 import AsyncFix.Model.Codec.Reader
+import AsyncFix.Model.Codec.ReaderProc
 import AsyncFix.Lemmas.CodecDecodeShape
 import AsyncFix.Lemmas.CodecDecodeCorrupt
 import AsyncFix.Lemmas.CodecDecodeSubst
@@ -91,6 +92,86 @@ theorem feed_buffer_suffix (bs : Bytes) (tbl : Tbl) (buf chunk : Bytes) :
 theorem feed_never_stalls (bs : Bytes) (tbl : Tbl) (buf chunk : Bytes) :
     (feed bs tbl buf chunk).stalled = false ∧ (feed bs tbl buf chunk).raised = none :=
   readLoop_never_stalls bs tbl (buf ++ chunk) []
+
+/-! ### the loop with a processing step that may raise
+
+`_process_message` can raise out of the inner loop (e.g. `_validate_integrity` on a duplicated header
+tag).  The buffer is advanced before processing, so whatever processing does the frame is handed over
+exactly once and nothing behind it is lost. -/
+
+/-- never stalls, and `decode` never raises inside it – for every processing step -/
+theorem readLoopP_never_stalls (bs : Bytes) (tbl : Tbl) (proc : Msg → Bytes → Bool) (buf : Bytes)
+    (acc : List (Msg × Bytes)) :
+    (readLoopP bs tbl proc buf acc).stalled = false ∧ (readLoopP bs tbl proc buf acc).raised = none := by
+  fun_induction readLoopP bs tbl proc buf acc with
+  | case1 buf acc k hd => exact absurd hd (decode_no_raise bs tbl buf k)
+  | case2 buf acc n hd => exact ⟨rfl, rfl⟩
+  | case3 buf acc m n raw hd hg hp => exact ⟨rfl, rfl⟩
+  | case4 buf acc m n raw hd hg hp ih => exact ih
+  | case5 buf acc m n raw hd hg =>
+    exfalso; apply hg
+    exact ⟨decode_msg_progress bs tbl buf m n raw hd, (decode_bounds bs tbl buf).1 m n raw hd⟩
+
+/-- with a processing step that never raises this is `readLoop` -/
+theorem readLoopP_no_raise_eq (bs : Bytes) (tbl : Tbl) (buf : Bytes) (acc : List (Msg × Bytes)) :
+    (readLoopP bs tbl (fun _ _ => false) buf acc).buf = (readLoop bs tbl buf acc).buf ∧
+    (readLoopP bs tbl (fun _ _ => false) buf acc).delivered = (readLoop bs tbl buf acc).delivered ∧
+    (readLoopP bs tbl (fun _ _ => false) buf acc).procRaised = false := by
+  fun_induction readLoop bs tbl buf acc with
+  | case1 buf acc k hd => rw [readLoopP]; simp [hd]
+  | case2 buf acc n hd => rw [readLoopP]; simp [hd]
+  | case3 buf acc m n raw hd hg ih => rw [readLoopP]; simp [hd, hg]; exact ih
+  | case4 buf acc m n raw hd hg => rw [readLoopP]; simp [hd, hg]
+
+/-- **The buffer is advanced regardless of what processing does.**  If processing raised, the bytes
+of the offending frame are gone and resuming the loop on what is left delivers exactly what an
+undisturbed loop would have delivered: nothing is lost, nothing is handed over twice.  If processing
+did not raise, the result is that of the undisturbed loop. -/
+theorem readLoopP_resume (bs : Bytes) (tbl : Tbl) (proc : Msg → Bytes → Bool) (buf : Bytes)
+    (acc : List (Msg × Bytes)) :
+    readLoop bs tbl (readLoopP bs tbl proc buf acc).buf (readLoopP bs tbl proc buf acc).delivered
+        = readLoop bs tbl buf acc ∨
+    ((readLoopP bs tbl proc buf acc).procRaised = false ∧
+      (readLoopP bs tbl proc buf acc).buf = (readLoop bs tbl buf acc).buf ∧
+      (readLoopP bs tbl proc buf acc).delivered = (readLoop bs tbl buf acc).delivered) := by
+  fun_induction readLoopP bs tbl proc buf acc with
+  | case1 buf acc k hd => exact absurd hd (decode_no_raise bs tbl buf k)
+  | case2 buf acc n hd =>
+    right
+    rw [readLoop_eq, hd]
+    exact ⟨rfl, rfl, rfl⟩
+  | case3 buf acc m n raw hd hg hp =>
+    left
+    conv => rhs; rw [readLoop_eq, hd]
+  | case4 buf acc m n raw hd hg hp ih =>
+    rw [readLoop_eq bs tbl buf acc, hd]
+    exact ih
+  | case5 buf acc m n raw hd hg =>
+    exfalso; apply hg
+    exact ⟨decode_msg_progress bs tbl buf m n raw hd, (decode_bounds bs tbl buf).1 m n raw hd⟩
+
+/-- the frame that was handed to processing is no longer in the buffer: what is left is a suffix of
+the buffer behind that frame, whatever processing did -/
+theorem readLoopP_frame_consumed (bs : Bytes) (tbl : Tbl) (proc : Msg → Bytes → Bool) (buf : Bytes)
+    (acc : List (Msg × Bytes)) (m : Msg) (n : Nat) (raw : Bytes) (hd : decode bs tbl buf = .msg m n raw) :
+    (readLoopP bs tbl proc buf acc).buf <:+ buf.drop n ∧ 0 < n := by
+  have hn := decode_msg_progress bs tbl buf m n raw hd
+  have hle := (decode_bounds bs tbl buf).1 m n raw hd
+  refine ⟨?_, hn⟩
+  rw [readLoopP]
+  simp only [hd, hn, hle, and_self, dite_true]
+  split
+  · exact List.suffix_refl _
+  · -- the rest of the loop only shortens the buffer further
+    have key : ∀ (b : Bytes) (a : List (Msg × Bytes)), (readLoopP bs tbl proc b a).buf <:+ b := by
+      intro b a
+      fun_induction readLoopP bs tbl proc b a with
+      | case1 b a k h => exact List.suffix_refl _
+      | case2 b a n h => exact List.drop_suffix _ _
+      | case3 b a m n raw h hg hp => exact List.drop_suffix _ _
+      | case4 b a m n raw h hg hp ih => exact List.IsSuffix.trans ih (List.drop_suffix _ _)
+      | case5 b a m n raw h hg => exact List.drop_suffix _ _
+    exact key _ _
 
 /-! ## 4. a returned message has a CheckSum field that matches its bytes -/
 
